@@ -57,6 +57,15 @@ def rule_factor_solve(P):
         for n in prods:
             fs = ordered_factors(f, n.value)
             t = _idx(n.target)
+            if t is None and isinstance(n.target, ast.Name):
+                # a local accumulator stored into the vector afterwards:  total += ..;  enter[j] = total
+                st_ = [x for x in walk_live(f.node) if isinstance(x, ast.Assign) and isinstance(x.targets[0], ast.Subscript) and W.is_name(x.value, n.target.id)]
+                if len(st_) == 1:
+                    t = _idx(st_[0].targets[0])
+                if t is None:
+                    r.undecided(f, n, f"`{first_line(n)}` accumulates into the local `{n.target.id}`; where it is stored was not recognised",
+                                construct=f"{name}: accumulator {n.target.id}")
+                    continue
             ok = False
             if len(fs) == 2 and t and len(t) == 1:
                 ia, ib = _idx(fs[0]), _idx(fs[1])
@@ -73,6 +82,12 @@ def rule_factor_solve(P):
         bs = [n for n in walk_live(f.node) if isinstance(n, ast.AugAssign) and isinstance(n.op, ast.Add) and isinstance(W.canon_ast(f.node, n.value, n), ast.Subscript)
               and W.is_name(W.canon_ast(f.node, n.value, n).value, f.params[1])]
         ok = len(bs) == 1 and _idx(bs[0].target) == _idx(W.canon_ast(f.node, bs[0].value, bs[0]))
+        if not bs:
+            # b[j] enters through the initial value of a local accumulator (`total = zero + b[j]`) or similar
+            reads = [x for x in walk_live(f.node) if isinstance(x, ast.Subscript) and W.is_name(x.value, f.params[1]) and isinstance(x.ctx, ast.Load)]
+            if len(reads) == 1 and len(W.enclosing_loops(reads[0])) == 2:
+                r.undecided(f, reads[0], f"{f.params[1]}[j] enters through `{first_line(W.stmt_of(reads[0]))}`, not through `+=` into the vector", construct=f"{name}: right-hand side")
+                continue
         r.add(f, bs[0] if bs else f.node, ok, "" if ok else f"the right-hand side {f.params[1]}[j] must enter each node j exactly once")
     c = P.func("linear.py::WeightedGraph._closure")
     r.looked_at(c)
